@@ -16,7 +16,8 @@ ASSUMPTIONS = [
     "the module has no size parameter; the lock-step tie is exhaustive in control inputs (valid,next,complete_in,invalid_in) and "
     "restricted to the payload alphabets listed in obligation_list (8-bit data path); full-width payloads are covered by the "
     "parametric model theorems (payload is an arbitrary N there) plus simulator correspondence on random 8-bit data",
-    "the lock-step tie and the correspondence need no environment assumption: model and netlist agree on every input trace",
+    "the lock-step tie and the correspondence traces are restricted by the same environment assumption (behaviour outside it is "
+    "not part of the property; a change that, say, stopped dropping the byte must not raise an alarm)",
 ]
 TIE_IMPORTS = "From LunaModel Require Import BoundaryDet BoundaryDet_proofs.\n"
 
@@ -51,10 +52,27 @@ def _cyc(valid=0, nxt=0, c=0, i=0, payload=0):
     return {"valid": valid, "next": nxt, "complete_in": c, "invalid_in": i, "payload": payload}
 
 
+def keep_env(tr):
+    """Enforce the environment assumption on a generated history: in the cycle right after a packet ended
+    (valid low while a packet was open) no byte is presented -- `next` is cleared there.  Behaviour outside
+    the assumption is not part of the property (the module drops such a byte), so neither the lock-step tie
+    nor the correspondence looks at it."""
+    ph = 0          # 0 idle, 1 in packet, 2 just ended
+    for c in tr:
+        if ph == 2 and c["valid"] and c["next"]:
+            c["next"] = 0
+        if ph == 0:
+            ph = 1 if (c["valid"] and c["next"]) else 0
+        elif ph == 1:
+            ph = 2 if not c["valid"] else 1
+        else:
+            ph = 0
+    return tr
+
+
 def packet_trace(rng, npackets, small=None):
-    """A mostly-legal receive history: idle, packets with byte gaps, strobes mostly at the packet end,
-    sometimes elsewhere; inter-packet gaps of 1.. cycles (gap 1 followed by an immediate byte breaks
-    the environment assumption on purpose now and then -- lock-step and correspondence do not need it)."""
+    """A receive history: idle, packets with byte gaps (incl. zero-length packets: valid without next),
+    strobes mostly at the packet end, sometimes elsewhere; inter-packet gaps of 0.. cycles."""
     pay = (lambda: rng.choice(small)) if small else (lambda: rng.randrange(256))
     tr = []
     for _ in range(npackets):
@@ -72,7 +90,7 @@ def packet_trace(rng, npackets, small=None):
         tr.append(_cyc(0, rng.random() < 0.1, r < 0.6, 0.6 <= r < 0.85, pay()))
     for _ in range(4):
         tr.append(_cyc())
-    return tr
+    return keep_env(tr)
 
 
 def traces(target, rng, tier):
@@ -84,8 +102,8 @@ def traces(target, rng, tier):
     # adversarial: unstructured control inputs, full-width data
     for k in range(n // 3):
         p = rng.choice([0.2, 0.5, 0.8])
-        out.append([_cyc(int(rng.random() < p), int(rng.random() < 0.5), int(rng.random() < 0.2),
-                         int(rng.random() < 0.2), rng.randrange(256)) for _ in range(rng.randint(1, 120))])
+        out.append(keep_env([_cyc(int(rng.random() < p), int(rng.random() < 0.5), int(rng.random() < 0.2),
+                                  int(rng.random() < 0.2), rng.randrange(256)) for _ in range(rng.randint(1, 120))]))
     return out
 
 
@@ -106,9 +124,9 @@ def obligations(targets, tier):
             f"ob_{t.name}_{nm}", t,
             St="bd_state", mstep="bd_mstep", enc="bd_enc", dec="bd_dec", wf="bd_wf",
             dec_enc="bd_dec_enc", wf_step="bd_wf_step", m0="bd_init", wf_m0="exact bd_wf_init.",
-            alphabet=alpha_expr(alpha), fuel=100000,
+            env="bd_menv", alphabet=alpha_expr(alpha), fuel=100000,
             describe=f"USBOutStreamBoundaryDetector == FSM model in lock step, all traces over every valid/next/complete_in/"
-                     f"invalid_in pattern with payloads from {[hex(a) for a in alpha]}"))
+                     f"invalid_in pattern with payloads from {[hex(a) for a in alpha]} that keep the environment assumption"))
     obs.append(tie.corr(f"corr_{t.name}", t, mstep="bd_mstep", m0="bd_init",
                         describe="FSM model vs simulator, random full-width (8-bit) payloads, structured packets + unstructured noise"))
     return obs
@@ -130,7 +148,7 @@ Proof.
   rewrite ({ob}_T.tie (tr ++ [0; 0; 0])).
   - apply bd_packed_flushed. exact He.
   - apply Forall_app. split; [exact H | repeat (constructor; [exact Z|]); constructor].
-  - apply env_ok_true.
+  - apply bd_env_ok. rewrite map_app. change (map bd_in_of [0; 0; 0]) with flush. apply bd_env_flush. exact He.
 Qed.
 """
     return s
@@ -149,7 +167,8 @@ LEVEL_TEXT = ("Machine-checked proof. (1) For the FSM model of USBOutStreamBound
               "cycle as) the last byte of its packet [C28_prefix]; processed.next implies processed.valid [C28_next_implies_valid]. "
               "Induction over the trace with a simulation invariant; unbounded in trace and packet length. "
               "(2) The netlist regenerated from /repo is proved equal to that model, output word for output word, on all traces of any "
-              "length over all control-input patterns with payloads from a finite alphabet (certified product reachability), giving "
+              "length over all control-input patterns with payloads from a finite alphabet that keep the same environment assumption "
+              "(certified product reachability), giving "
               "C28_bdet_<alphabet>: netlist events = specification. (3) Full-width payloads: simulator correspondence on random 8-bit data.")
 LEVEL_NOTE = ("Trusted: Coq kernel + vm_compute, Amaranth elaboration to NIR, nir2coq.py/Netlist.v (validated each run against Amaranth's "
               "simulator). The kernel-checked netlist=model theorem restricts payload bytes to the listed alphabets (quick: 00/5A/A5/FF; "
